@@ -1853,8 +1853,8 @@ impl Block {
                         // from flushing the treasury out to their own wallet by massively increasing the
                         // amount of SAITO being rebroadcast in a single block.
                         //
-                        if cv.total_payout_atr > (self.treasury as f64 * 0.05) as u64 {
-                            let max_total_payout = (self.treasury as f64 * 0.05) as u64;
+                        if cv.total_payout_atr > (previous_block_treasury as f64 * 0.05) as u64 {
+                            let max_total_payout = (previous_block_treasury as f64 * 0.05) as u64;
                             let unadjusted_total_nolan = cv.total_rebroadcast_nolan;
                             let adjusted_atr_payout_multiplier =
                                 max_total_payout / unadjusted_total_nolan;
